@@ -16,6 +16,7 @@ import time
 from concurrent.futures import ThreadPoolExecutor
 
 PY = "/verif/.venv/bin/python"
+ROOT = os.path.dirname(os.path.dirname(os.path.abspath(__file__)))
 _ERR = re.compile(r"^(?P<file>[^:]+):(?P<line>\d+): error: (?P<msg>.*)$")
 _CALL = re.compile(r"when calling (?P<call>.*?)(?: \(which (?:returns|raises).*\))?$", re.S)
 
@@ -33,7 +34,7 @@ def _find_lines(path):
 def _run_one(path, func, line, timeout, env_extra):
     t0 = time.time()
     env = dict(os.environ)
-    env["PYTHONPATH"] = "/verif" + (":" + env["PYTHONPATH"] if env.get("PYTHONPATH") else "")
+    env["PYTHONPATH"] = ROOT
     env["PYTHONDONTWRITEBYTECODE"] = "1"
     env["VERIF_CHX"] = "1"
     env.update(env_extra or {})
@@ -64,7 +65,7 @@ def replay_call(path, call_text):
     """Re-execute the reported call under plain CPython in a fresh process. Returns (reproduced, detail)."""
     code = (
         "import sys, importlib.util\n"
-        "sys.path.insert(0, '/verif')\n"
+        "sys.path.insert(0, %r)\n"
         "spec = importlib.util.spec_from_file_location('h', %r)\n"
         "h = importlib.util.module_from_spec(spec); sys.modules['h'] = h; spec.loader.exec_module(h)\n"
         "import math\nfrom math import inf, nan\n"
@@ -74,10 +75,10 @@ def replay_call(path, call_text):
         "except Exception as e:\n"
         "    print('REPRODUCED exception', type(e).__name__, e); sys.exit(0)\n"
         "print('REPRODUCED returns %%r' %% (r,) if not r else 'NOT-REPRODUCED returns %%r' %% (r,))\n"
-    ) % (path, call_text)
+    ) % (ROOT, path, call_text)
     env = dict(os.environ)
     env.pop("VERIF_CHX", None)
-    env["PYTHONPATH"] = "/verif"
+    env["PYTHONPATH"] = ROOT
     p = subprocess.run([PY, "-c", code], capture_output=True, text=True, env=env, timeout=600)
     txt = (p.stdout + p.stderr).strip()
     return ("REPRODUCED" in p.stdout and "NOT-REPRODUCED" not in p.stdout), txt[-800:], code
